@@ -6,7 +6,7 @@ From Coq Require Import List Bool Arith Lia Permutation.
 From SQ Require Import Base.ListUtil Stab.Pauli Stab.Kernels Stab.Gates Stab.Tableau Stab.Group Stab.GroupGates
      Stab.TensorProof Stab.PermProof Stab.EqProof Stab.MeasureProof Stab.MeasureFull Stab.LocalZ
      Net.Model Net.Refusal Net.Capacity Net.Handles Net.Fresh Net.Inv Net.InvStep Net.Bookkeeping Net.Placement
-     Net.RegsPerm Net.Joint Net.JointOps Net.JointSteps Net.Ideal.
+     Net.RegsPerm Net.Joint Net.JointOps Net.JointSteps Net.JointExplicit Net.Ideal.
 Import ListNotations.
 
 Definition fac (r : reg) : factor := mkF (r_ids r) (r_n r) (r_tab r).
@@ -350,4 +350,48 @@ Proof.
   rewrite <- E. msplit; auto.
   - intros r Hr. rewrite Forall_forall in FA. apply (FA (fac r)). apply in_map; auto.
   - apply (tc_ids s st T).
+Qed.
+
+(* ---- every reported outcome has non-zero probability -------------------------------------------------------------------------------
+   A stabilizer state with group S gives outcome b on qubit q with probability 0 exactly when (-1)^(1-b) Z_q is in S (the state
+   is then an eigenstate of Z_q with the other eigenvalue).  Whenever Model V reports an outcome v for a measurement, the
+   operator of the opposite eigenvalue is neither in the joint group of the network nor in the ideal register's group. *)
+Theorem reported_outcome_possible caps ops h ip c v :
+  let s := run (init_net caps) ops in
+  let st := irun iinit (tr_run (init_net caps) ops) in
+  snd (step s (OMeas h ip c)) = Ok v ->
+  exists vi q, find_handle s h = Some (vi, q) /\ (v = 0 \/ v = 1) /\
+    ~ joint s (gz (ph_of_sign (negb (Nat.eqb v 1))) (v_qid q)) /\
+    ~ ideal st (gz (ph_of_sign (negb (Nat.eqb v 1))) (v_qid q)).
+Proof.
+  assert (R0 : reachable (init_net caps)) by (exists caps, []; reflexivity).
+  destruct (run_tcore ops (init_net caps) iinit R0 (tcore_init caps)) as [T _].
+  assert (R : reachable (run (init_net caps) ops)) by (exists caps, ops; reflexivity).
+  set (s := run (init_net caps) ops) in *. set (st := irun iinit (tr_run (init_net caps) ops)) in *. cbv zeta.
+  intro EV. pose proof (reachable_ginv s R) as G.
+  destruct (find_handle s h) as [[vi q]|] eqn:EF; [|rewrite (meas_stale_noop s h ip c EF) in EV; discriminate].
+  exists vi, q. split; auto.
+  destruct (meas_shape s h vi q ip c G EF) as (x & r & rest & Hr & Lp & Eid & P1 & MS).
+  destruct (net_frame s st r rest T P1) as (ND & L & F & HF).
+  pose proof (meas_outcome_possible (r_n r) (s_pos x) true c (r_tab r) Lp F) as NP.
+  destruct (measure (r_n r) (s_pos x) true c (r_tab r)) as [[o n1] t1] eqn:EM. destruct MS as [EO _].
+  rewrite EO in EV. inversion EV as [EV']. cbn [fst] in NP.
+  assert (EB : Nat.eqb (if o then 1 else 0) 1 = o) by (destruct o; reflexivity). rewrite EB.
+  rewrite (step_zel (factors s) (r_ids r) (r_n r) (r_tab r) (map fac rest) (s_pos x) _ (tc_ok s st T) HF Lp) in NP.
+  rewrite Eid in NP.
+  split; [destruct o; auto|]. split; auto. intro H. apply NP. apply (tc_eq s st T). exact H.
+Qed.
+
+(* ---- `joint` and `ideal` in explicit form, for every reachable state ----------------------------------------------------------------
+   joint: one element g_r of the group of every register r of every node (registers in the model's own order), P restricted
+   to the identities r_ids r is g_r position by position, P is the identity on every other identity, and the phase of P is
+   the sum of the phases of the g_r.  ideal: the same with the single ideal register. *)
+Theorem joint_ideal_explicit caps ops P :
+  let s := run (init_net caps) ops in
+  let st := irun iinit (tr_run (init_net caps) ops) in
+  (joint s P <-> explicit (factors s) P) /\ (ideal st P <-> explicit [ifac st] P).
+Proof.
+  assert (R0 : reachable (init_net caps)) by (exists caps, []; reflexivity).
+  destruct (run_tcore ops (init_net caps) iinit R0 (tcore_init caps)) as [T _]. cbv zeta.
+  split; apply jgroup_explicit; apply T.
 Qed.
